@@ -150,7 +150,14 @@ def make_book(rng):
         for i, c in enumerate(cols):
             r1, r2 = (1, 8)
             if missized and i == len(cols) - 1:
-                r1, r2 = rng.choice([(1, 7), (1, 9), (2, 8), (1, 4)])
+                r1, r2 = rng.choice([(1, 7), (1, 9), (2, 8), (1, 4), ('row', 0), ('rect', 0)])
+            if r1 == 'row':
+                # as many cells as the target column, lying in a ROW (or in a 4x2 block): another shape is another size
+                pairs.append(f'H20:O20{sep}{criterion(rng, c)}')
+                continue
+            if r1 == 'rect':
+                pairs.append(f'H21:I24{sep}{criterion(rng, c)}')
+                continue
             pairs.append(f'{rng_of(c, r1, r2)}{sep}{criterion(rng, c)}')
         if missized and fn == 'COUNTIFS' and npairs == 1:
             missized = False
